@@ -192,12 +192,12 @@ func EnumFileCases() []*Program {
 func init() {
 	Register(&CheckSpec{
 		Prop: "C18", World: "file",
-		Gen:   nil,
-		Run:   RunFileProgram,
-		Enum:  EnumFileCases,
-		Level: "fault_enumeration",
+		Gen:        nil,
+		Run:        RunFileProgram,
+		Enum:       EnumFileCases,
+		Level:      "fault_enumeration",
 		NonTrivial: func(p *Program, r *Result) bool { return r.Probes["file.image"] > 0 },
-		Rule:  "W-file, exhaustive: writeFileAtomic of app and mcp (and mcp rollbackConfigFile), with and without a previous file: a crash before every verifos call x every post-crash image (kill; power loss with any prefix of unsynced directory operations, unsynced file data old/new/torn), and EIO/ENOSPC/EACCES injected at every call; oracle: the config path holds exactly the complete old or the complete new bytes; distinct = (implementation, fault kind, call index, previous-file) cases that produced at least one image",
+		Rule:       "W-file, exhaustive: writeFileAtomic of app and mcp (and mcp rollbackConfigFile), with and without a previous file: a crash before every verifos call x every post-crash image (kill; power loss with any prefix of unsynced directory operations, unsynced file data old/new/torn), and EIO/ENOSPC/EACCES injected at every call; oracle: the config path holds exactly the complete old or the complete new bytes; distinct = (implementation, fault kind, call index, previous-file) cases that produced at least one image",
 		RealStub: map[string]string{
 			"app.writeFileAtomic/syncDir, mcp.writeFileAtomic/syncDir/rollbackConfigFile": "real (os calls rerouted to verifos by the check-time rewrite)",
 			"file system durability": "simulated (simfs journal: data volatile until File.Sync, directory entries volatile until the directory is synced)",
